@@ -140,6 +140,23 @@ def dispatched (pre : Snap) (s : Step) : Bool :=
     | _ => pre.queue
   q.any (fun x => x ∉ s.post.queue)
 
+/-- does a result name only payloads of the request `ps`, each at most once (the client contract C07)? -/
+def validFor (ps : List Payload) (r : ProdRes) : Bool :=
+  r.tps.all (· ∈ ps.map (·.tp)) && decide r.tps.Nodup
+
+/-- Is the completion / stop carried by this event enabled, as far as the trace tells: a produce
+    result must be for the request in flight and name only its payloads (otherwise the event is a no-op). -/
+def effective (t : Track) : Ev → Bool
+  | .produceDone k r =>
+    match t.cur, t.curRes with
+    | some (rid, ps), none => k == rid && validFor ps r
+    | _, _ => false
+  | .stop _ (some r) _ =>
+    match t.cur, t.curRes with
+    | some (_, ps), none => validFor ps r
+    | _, _ => true
+  | _ => true
+
 /-- the part of `track` that looks at the event only -/
 def trackEv (pre : Snap) (t : Track) (e : Ev) : Track :=
   let t0 : Track := match e with
@@ -149,9 +166,9 @@ def trackEv (pre : Snap) (t : Track) (e : Ev) : Track :=
                  sends := if msgs.isEmpty then t.sends else t.sends ++ [{ sid, topic, key, msgs }] }
       else t
     | .cancel sid => if sid ∈ pre.queue then { t with cancelledQueued := sid :: t.cancelledQueued } else t
-    | .stop .. => { t with stopped := true }
+    | .stop .. => if effective t e then { t with stopped := true } else t
     | _ => t
-  match completionOf e, t0.cur, t0.curRes with
+  match (if effective t e then completionOf e else none), t0.cur, t0.curRes with
   | some r, some (_, ps), none =>
     { t0 with curRes := some r, acct := t0.acct && accounts ps r,
               acked := ((respsOf r).filter (·.error = 0)).map (·.tp) ++ t0.acked }
